@@ -136,6 +136,10 @@ impl AEADBodyCodec {
                         return Ok(None);
                     }
                     let length = self.decode_size(&mut src.split_to(size_bytes), session.chunk_nonce())?;
+                    if length < padding {
+                        // a size field that does not even cover this chunk's padding (`length - padding` below would wrap)
+                        return Err(aead::Error);
+                    }
                     self.state = DecodeState::Body(padding, length)
                 }
                 DecodeState::Body(padding, length) => {
@@ -168,6 +172,9 @@ impl AEADBodyCodec {
                     }
                     let length = self.decode_size(&mut src.split_to(size_bytes), session.chunk_nonce())?;
                     trace!("Decode payload; payload length={}", length);
+                    if length < padding {
+                        return Err(aead::Error);
+                    }
                     self.state = DecodeState::Body(padding, length)
                 }
                 DecodeState::Body(padding, length) => {
